@@ -121,3 +121,20 @@ Example C14_prechosen_sweep :
   held_ids (run_ [0; 0; 0]%nat) 0%nat = [1%N] /\ reserved_ids (wal (run_ [0; 0; 0]%nat)) = [1%N] /\
   ph (bs (run_ [0; 0; 0; 0]%nat) 0%nat) = PDone Released /\ wal (run_ [0; 0; 0; 0]%nat) = demo_wallet.
 Proof. exact prechosen_sweep. Qed.
+
+(* Broadcast outcomes: Finish with [finish b] = false is every way a send can fail (rejected, connection down,
+   cancelled while pending): the inputs are released and the build is over; and a build that is over does nothing
+   more - in particular its released transaction is not sent later. *)
+Theorem C14_failed_send_releases :
+  forall use_lock lock_pre n choose more finish pre start can_sign st b,
+  b < n -> ph (bs st b) = PFinish -> finish b = false ->
+  let st' := step use_lock lock_pre n choose more finish pre start can_sign st b in
+  wal st' = release (map uid (held (bs st b))) (wal st) /\ ph (bs st' b) = PDone Released /\ held (bs st' b) = [].
+Proof. exact failed_send_releases. Qed.
+Print Assumptions C14_failed_send_releases.
+Theorem C14_done_is_final :
+  forall use_lock lock_pre n choose more finish pre start can_sign st b,
+  finished (ph (bs st b)) = true ->
+  step use_lock lock_pre n choose more finish pre start can_sign st b = st.
+Proof. exact done_is_final. Qed.
+Print Assumptions C14_done_is_final.
